@@ -2,7 +2,9 @@
    Only statements here; each is closed by [exact] of a lemma proved in CoinSel/*.v.
    [min_fee] / [fee_for_input] are arbitrary functions (the real builder's min_fee() and fee_for_input()),
    [cs : list N] is the sequence of random draws (hook H1: k-th draw gen_range(0..n) = k-th element mod n), so the
-   quantification over [cs] is the quantification over every outcome of the RNG. *)
+   quantification over [cs] is the quantification over every outcome of the RNG.  [current] is the code as it is
+   (after /repo b244700, 2a9f309, d550071, 844a848, 0efa6ad, d980bbe, ab61362); the legacy variants are the code
+   before one of these repairs. *)
 From CSL Require Import Base.Prelude Num.Value CoinSel.CoinSel CoinSel.CoinSelSpec CoinSel.CoinSelLemmas CoinSel.CoinSelProofs
   CoinSel.CoinSelSound CoinSel.CoinSelRefute CoinSel.CoinSelJudge.
 From Coq Require Import Permutation.
@@ -10,43 +12,53 @@ Local Open Scope N_scope.
 
 (* Success => the added inputs are pairwise distinct members of the offered list, the inputs present before are
    unchanged (the resulting map is a permutation of the old inputs and the added ones), and the actual inputs cover
-   outputs + deposits + donation + required fee in lovelace, and every asset of the target outside the known class
-   C08-burn-not-covered (burn_class: an asset is burnt and the strategy is not LargestFirstMultiAsset).
-   All four strategies, all offered lists, builder contents and draw sequences; the code as it is now (after the
-   repairs b244700, 2a9f309, d550071 in /repo). *)
+   outputs + deposits + burn + donation + required fee in lovelace and in EVERY asset.  All four strategies, ALL
+   offered lists (they may repeat outpoints and overlap the builder's inputs), builder contents and draw sequences.
+   No known class is excluded. *)
 Theorem C08_sound :
   forall (min_fee : imap -> result N) (fee_for_input : imap -> utxo -> result N)
          (strat : strategy) (cs : list N) (offered : list utxo) (sc : scenario) (st' : sel_state),
-    scenario_wf offered sc -> distinct_outpoints offered sc ->
+    scenario_wf offered sc -> pre_distinct sc ->
     add_inputs_from min_fee fee_for_input current strat cs offered sc = (st', Done tt) ->
-    sound_result min_fee fee_for_input (burn_class strat sc) offered sc st'.
+    sound_result min_fee fee_for_input false offered (effective_offered current offered sc) sc st'.
 Proof. exact sound_current. Qed.
 Print Assumptions C08_sound.
 
-(* when fee_for_input is the difference of two minimum fees (its definition), the fee covered is min_fee() of the
-   resulting builder *)
+(* when fee_for_input is the difference of two minimum fees, the fee covered is min_fee() of the resulting builder *)
 Theorem C08_sound_min_fee :
   forall (min_fee : imap -> result N) (fee_for_input : imap -> utxo -> result N)
          (strat : strategy) (cs : list N) (offered : list utxo) (sc : scenario) (st' : sel_state),
     fee_additive min_fee fee_for_input ->
-    scenario_wf offered sc -> distinct_outpoints offered sc ->
+    scenario_wf offered sc -> pre_distinct sc ->
     add_inputs_from min_fee fee_for_input current strat cs offered sc = (st', Done tt) ->
     exists fee, min_fee (st_inputs st') = Ok fee /\ covers_coin sc (st_inputs st') fee.
 Proof. exact sound_current_min_fee. Qed.
 Print Assumptions C08_sound_min_fee.
 
+(* … which is what the builder's own fee functions are, for every raw size-based estimate and every fee request
+   (Unspecified / set_min_fee / set_fee): no premise on the fees *)
+Theorem C08_sound_fee_model :
+  forall (raw : N -> imap -> result N) (req : fee_request)
+         (strat : strategy) (cs : list N) (offered : list utxo) (sc : scenario) (st' : sel_state),
+    scenario_wf offered sc -> pre_distinct sc ->
+    add_inputs_from (min_fee_of raw req) (fee_for_input_of raw req two32) current strat cs offered sc = (st', Done tt) ->
+    exists fee, min_fee_of raw req (st_inputs st') = Ok fee /\ covers_coin sc (st_inputs st') fee.
+Proof. exact sound_current_fee_model. Qed.
+Print Assumptions C08_sound_fee_model.
+
 (* Largest-first (strategy LargestFirst), when more lovelace is needed than the builder holds: whatever the outcome,
-   the inputs are added in non-increasing order of their lovelace and every offered UTxO not added holds at most as
-   much as every added one *)
+   the inputs are added in non-increasing order of their lovelace and every (effective) offered UTxO not added holds
+   at most as much as every added one *)
 Theorem C08_largest_first_order :
   forall (min_fee : imap -> result N) (fee_for_input : imap -> utxo -> result N)
          (cs : list N) (offered : list utxo) (sc : scenario) (st0 st' : sel_state) (r : outcome unit),
     initial_state min_fee sc = (st0, Done tt) -> coin (st_in st0) < coin (st_out st0) ->
     add_inputs_from min_fee fee_for_input current LargestFirst cs offered sc = (st', r) ->
-    desc_sorted (key_of ByCoin offered) (st_trace st') /\
-    (forall i, In i (st_trace st') -> (i < length offered)%nat) /\
-    (forall i j, In i (st_trace st') -> (j < length offered)%nat -> ~ In j (st_trace st') ->
-                 key_of ByCoin offered j <= key_of ByCoin offered i).
+    let eff := effective_offered current offered sc in
+    desc_sorted (key_of ByCoin eff) (st_trace st') /\
+    (forall i, In i (st_trace st') -> (i < length eff)%nat) /\
+    (forall i j, In i (st_trace st') -> (j < length eff)%nat -> ~ In j (st_trace st') ->
+                 key_of ByCoin eff j <= key_of ByCoin eff i).
 Proof. exact lf_order_top. Qed.
 Print Assumptions C08_largest_first_order.
 
@@ -54,85 +66,122 @@ Print Assumptions C08_largest_first_order.
 Theorem C08_largest_first_minimal :
   forall (min_fee : imap -> result N) (fee_for_input : imap -> utxo -> result N)
          (cs : list N) (offered : list utxo) (sc : scenario) (st0 st' : sel_state),
-    scenario_wf offered sc -> distinct_outpoints offered sc ->
+    scenario_wf offered sc -> pre_distinct sc ->
     initial_state min_fee sc = (st0, Done tt) -> coin (st_in st0) < coin (st_out st0) ->
     add_inputs_from min_fee fee_for_input current LargestFirst cs offered sc = (st', Done tt) ->
     forall k, (k < length (st_trace st'))%nat ->
+      let eff := effective_offered current offered sc in
       let before := imap_of_list (sc_pre sc) in
-      let prefix := added_utxos offered (firstn k (st_trace st')) in
+      let prefix := added_utxos eff (firstn k (st_trace st')) in
       exists fk, required_fee min_fee fee_for_input before prefix = Ok fk /\ ~ covers_coin sc (before ++ prefix) fk.
 Proof. exact lf_minimal_top. Qed.
 Print Assumptions C08_largest_first_minimal.
 
-(* … and it reports insufficiency only after adding every offered UTxO, when all of them together do not cover
-   outputs + fee *)
+(* … and it reports insufficiency only after adding every offered UTxO (not yet in the builder), when all of them
+   together do not cover outputs + fee — or because an asset of the target, for which this ADA-only strategy does
+   not select, is not covered (the guard of /repo ab61362) *)
 Theorem C08_largest_first_complete :
   forall (min_fee : imap -> result N) (fee_for_input : imap -> utxo -> result N)
          (cs : list N) (offered : list utxo) (sc : scenario) (st0 st' : sel_state),
-    scenario_wf offered sc -> distinct_outpoints offered sc ->
+    scenario_wf offered sc -> pre_distinct sc ->
     initial_state min_fee sc = (st0, Done tt) -> coin (st_in st0) < coin (st_out st0) ->
     add_inputs_from min_fee fee_for_input current LargestFirst cs offered sc = (st', Insufficient) ->
+    let eff := effective_offered current offered sc in
     let before := imap_of_list (sc_pre sc) in
-    let added := added_utxos offered (st_trace st') in
-    Permutation added offered /\
-    exists fee, required_fee min_fee fee_for_input before added = Ok fee /\ ~ covers_coin sc (before ++ offered) fee.
+    let added := added_utxos eff (st_trace st') in
+    asset_guard st' = false \/
+    (Permutation added eff /\
+     exists fee, required_fee min_fee fee_for_input before added = Ok fee /\ ~ covers_coin sc (before ++ eff) fee).
 Proof. exact lf_complete_top. Qed.
 Print Assumptions C08_largest_first_complete.
 
-(* The three defects of the code before its repairs: each variant of the model reports success on a witness for
-   which the specification fails (witnesses replayed on the real code: corpus/C08/w-*.case) *)
+(* The defects of the code before its repairs: each single-fault variant of the model reports success (or panics)
+   on a witness for which the specification fails (witnesses replayed on the real code: corpus/C08/w-*.case) *)
 Theorem C08_swap_bookkeeping_refuted :
   exists min_fee ffi cs offered sc st',
-    scenario_wf offered sc /\ distinct_outpoints offered sc /\
-    add_inputs_from min_fee ffi (mkVariant false true true) RandomImprove cs offered sc = (st', Done tt) /\
-    ~ sound_result min_fee ffi false offered sc st'.
+    scenario_wf offered sc /\ pre_distinct sc /\
+    add_inputs_from min_fee ffi (mkVariant false true true true true true) RandomImprove cs offered sc = (st', Done tt) /\
+    ~ sound_result min_fee ffi false offered offered sc st'.
 Proof. exact swap_bookkeeping_refuted. Qed.
 Print Assumptions C08_swap_bookkeeping_refuted.
 
 Theorem C08_duplicate_outputs_refuted :
   exists min_fee ffi cs offered sc st',
-    scenario_wf offered sc /\ distinct_outpoints offered sc /\
-    add_inputs_from min_fee ffi (mkVariant true false true) RandomImprove cs offered sc = (st', Done tt) /\
-    ~ sound_result min_fee ffi false offered sc st'.
+    scenario_wf offered sc /\ pre_distinct sc /\
+    add_inputs_from min_fee ffi (mkVariant true false true true true true) RandomImprove cs offered sc = (st', Done tt) /\
+    ~ sound_result min_fee ffi false offered offered sc st'.
 Proof. exact duplicate_outputs_refuted. Qed.
 Print Assumptions C08_duplicate_outputs_refuted.
 
 Theorem C08_prestep_fee_refuted :
   exists min_fee ffi cs offered sc st',
-    scenario_wf offered sc /\ distinct_outpoints offered sc /\
-    add_inputs_from min_fee ffi (mkVariant true true false) LargestFirst cs offered sc = (st', Done tt) /\
-    ~ sound_result min_fee ffi false offered sc st'.
+    scenario_wf offered sc /\ pre_distinct sc /\
+    add_inputs_from min_fee ffi (mkVariant true true false true true true) LargestFirst cs offered sc = (st', Done tt) /\
+    ~ sound_result min_fee ffi false offered offered sc st'.
 Proof. exact prestep_fee_refuted. Qed.
 Print Assumptions C08_prestep_fee_refuted.
 
-(* The known class of the code as it is: a burnt asset is not covered by any strategy but LargestFirstMultiAsset *)
+Theorem C08_improve_overflow_refuted :
+  exists st st',
+    add_inputs_from zero_fee zero_ffi (mkVariant true true true false true true) RandomImprove [0; 0; 0] wv_offered wv_sc = (st, Panicked) /\
+    add_inputs_from zero_fee zero_ffi current RandomImprove [0; 0; 0] wv_offered wv_sc = (st', Done tt) /\
+    imap_ids (st_inputs st') = [1].
+Proof. exact improve_overflow_refuted. Qed.
+Print Assumptions C08_improve_overflow_refuted.
+
+Theorem C08_offered_overlap_refuted :
+  exists min_fee ffi cs offered sc st',
+    scenario_wf offered sc /\ pre_distinct sc /\
+    add_inputs_from min_fee ffi (mkVariant true true true true false true) LargestFirst cs offered sc = (st', Done tt) /\
+    ~ sound_result min_fee ffi false offered offered sc st'.
+Proof. exact offered_overlap_refuted. Qed.
+Print Assumptions C08_offered_overlap_refuted.
+
 Theorem C08_burn_not_covered_refuted : forall strat, strat <> LargestFirstMultiAsset ->
-  exists st', scenario_wf wb_offered wb_sc /\ distinct_outpoints wb_offered wb_sc /\
-    add_inputs_from zero_fee zero_ffi current strat [] wb_offered wb_sc = (st', Done tt) /\
-    burn_class strat wb_sc = true /\ ~ covers_assets wb_sc (st_inputs st').
+  exists st', scenario_wf wb_offered wb_sc /\ pre_distinct wb_sc /\
+    add_inputs_from zero_fee zero_ffi (mkVariant true true true true true false) strat [] wb_offered wb_sc = (st', Done tt) /\
+    ~ covers_assets wb_sc (st_inputs st').
 Proof. exact burn_not_covered_refuted. Qed.
 Print Assumptions C08_burn_not_covered_refuted.
 
-(* The judge evaluated by the check on the implementation's reports implies the clauses of the specification *)
+(* fee_for_input with the zero fee placeholder it had before /repo d980bbe, under set_min_fee *)
+Theorem C08_fee_placeholder_refuted :
+  exists raw req cs offered sc st',
+    scenario_wf offered sc /\ pre_distinct sc /\
+    add_inputs_from (min_fee_of raw req) (fee_for_input_of raw req 0) current LargestFirst cs offered sc = (st', Done tt) /\
+    forall fee, min_fee_of raw req (st_inputs st') = Ok fee -> ~ covers_coin sc (st_inputs st') fee.
+Proof. exact fee_placeholder_refuted. Qed.
+Print Assumptions C08_fee_placeholder_refuted.
+
+(* The judge evaluated by the check on the implementation's reports implies the clauses of the specification,
+   including largest-first's "largest" and "stops as soon as covered" clauses *)
 Theorem C08_judge_sound :
-  forall strat offered sc final_ids explicit fee,
-    judge strat offered sc final_ids explicit fee = Holds ->
+  forall strat offered sc final_ids explicit fee prefix,
+    judge strat offered sc final_ids explicit fee prefix = Holds ->
     let pre := imap_of_list (sc_pre sc) in
+    let eff := filter_offered (ids pre) offered in
     let inputs := judge_inputs offered pre final_ids in
-    scenario_wf offered sc /\ distinct_outpoints offered sc /\
+    scenario_wf offered sc /\ pre_distinct sc /\
     NoDup final_ids /\ (forall x, In x final_ids -> In x (ids pre) \/ In x (ids offered)) /\
     incl (ids pre) final_ids /\
     (exists total, sum_values value_zero (map u_val inputs) = Ok total /\ value_eqb_sem total explicit = true) /\
     covers_coin sc inputs fee /\ covers_assets sc inputs /\
-    (lf_clause_applies strat sc = true -> lf_largest_b offered (ids pre) final_ids = true).
+    (lf_clause_applies strat sc = true ->
+       lf_largest_b eff (ids pre) final_ids = true /\
+       forall w, lf_last_added eff (ids pre) final_ids = Some w ->
+         exists g, prefix = Some (u_id w, g) /\
+                   ~ covers_coin sc (filter (fun u => negb (u_id u =? u_id w)) inputs) g).
 Proof. exact judge_sound. Qed.
 Print Assumptions C08_judge_sound.
 
 (* pinned definitions (cannot be weakened silently) *)
-Check (eq_refl : current = mkVariant true true true).
-Check (eq_refl : burn_class RandomImprove wb_sc = true).
-Check (eq_refl : burn_class LargestFirstMultiAsset wb_sc = false).
-(* non-vacuity of the premises: sound_current_premises, largest_first_premises, largest_first_insufficient_premises *)
+Check (eq_refl : current = mkVariant true true true true true true).
+Check (eq_refl : legacy = mkVariant false false false false false false).
+(* non-vacuity of the premises *)
 Check sound_current_premises.
 Check largest_first_premises.
 Check largest_first_insufficient_premises.
+Check fee_additive_premise.
+Check burn_now_insufficient.
+Check overlap_now_sound.
+Check fee_placeholder_now_insufficient.
